@@ -203,6 +203,7 @@ int main(int argc, char** argv) {
     if (!strcmp(argv[a], "--sern")) opt_sern = 1;
     else if (!strcmp(argv[a], "--copy")) opt_copy = 1;
     else if (!strcmp(argv[a], "--noshare")) vg_share = 0;
+    else if (!strcmp(argv[a], "--wildhalf")) vg_wild_half = 1;
   }
   if (a + 1 >= argc) return 2;
   va_install();
